@@ -32,6 +32,18 @@ CHECKS = {
    text="Nat.tla defines add/sub/mul/divmod/comparisons/bitwise/shifts/rotations/bit counts on little-endian limb sequences; TLC proves them equal to integer arithmetic for all pairs of 8-bit numbers in the mini field, the same text at full width is the oracle: GEN_U64 enumerates every documented std::math::u64 procedure x all limb combinations of the boundary set (all shift amounts 0..63) and the u256 procedures on limb patterns; each call runs on the real VM with a sentinel stack underneath and must equal the contract (U64.tla) on every stack position; zero divisors must fail.",
    note="Trusted: TLC; u64.md and the u256.masm doc comments as the contract (overflowing_mul is read as the 128-bit product).",
    tech="TLA+ limb-arithmetic spec checked exhaustively in a mini field; contract-generated calls replayed on the VM", ref="DESIGN.md §4 C16"),
+ "C03": dict(cat="model_checking",
+   text="Every row of recorded executions (generated programs of all feature classes) is validated against the operation-level specification MidenVM.tla by TLC (system, decoder and stack columns incl. overflow bookkeeping), so the trace is the one the specification prescribes; on the same executions the real ProcessorAir is evaluated on every consecutive row pair of the main segment and of the auxiliary segment built for k independent challenge vectors, and every boundary assertion is checked against the execution's public inputs; the padded length is judged by TraceLen.tla (power of two, >= 64, room for cycles / range table / chiplets + random row) and must not depend on the expected-cycles hint (64..2^14), nor may the trace digest.",
+   note="Trusted: TLC; winterfell's Air evaluation interface; HPERM results are compared with the RPO primitive by the recorder; chiplet-internal rows are judged by the real constraints only.",
+   tech="TLA+ operation-level spec; trace validation of recorded rows (impl -> spec) + evaluation of the real AIR on the validated traces", ref="DESIGN.md §4 C03"),
+ "C07": dict(cat="model_checking",
+   text="MidenVM.tla models contexts (call: fresh ctx = clk+1, depth 16, fmp 2^30; syscall: ctx 0, fmp 2^31, kernel membership, caller hash; dyn), per-context word RAM and the overflow table. TLC checks on call trees in the mini field that a step changes memory only in its own context, contexts are fresh, syscalls see root memory, returns restore the caller, bad returns / non-kernel syscalls / caller outside a syscall fail, and every run terminates. Recorded executions of structured random programs (nested call / syscall / dyncall / dynexec / exec with locals, element / word / stream / pipe / local accesses on colliding addresses, deep caller stacks) are validated row by row (ctx, fmp, in_syscall, fn_hash, stack, overflow addresses, every value read from memory); negative scenarios must fail with the error the specification predicts by running on its own.",
+   note="Trusted: TLC; values popped from the advice stack are inputs of the validation (their order is C09).",
+   tech="TLA+ VM spec model-checked in a mini field + row-by-row trace validation of recorded executions", ref="DESIGN.md §4 C07"),
+ "C13": dict(cat="model_checking",
+   text="MidenVM.tla's decoder (block stack, span rows with group counter / op index / batch flags / alignment NOOPs, RESPAN, REPEAT, END flags, hasher-address counter) is model-checked for every push/non-push pattern (group counter reaches zero, op index in range, NOOPs only where documented, stream = program) and validated row by row against recorded executions of generated programs (all MAST shapes, spans of every fill pattern, loops, calls, dyn): operation, block address, hasher registers, in_span, group_count, op_index, batch flags; the last row must be HALT carrying the program hash. A corrupted recording must be rejected at the corrupted event (binding self-test).",
+   note="Trusted: TLC; block hashes are labels taken from the assembled MAST (their recipe is C08).",
+   tech="TLA+ decoder spec; TLC model checking + trace validation of recorded decoder columns", ref="DESIGN.md §4 C13"),
 }
 
 NOT_APPLICABLE = {
